@@ -541,6 +541,46 @@ def gen_coord_readdress_history(rnd):
     return {"hosts": [list(h) for h in hosts], "form": "tuples", "universe": UNIVERSE, "seed": rnd.randint(0, 10 ** 6), "ops": ops}
 
 
+def gen_acks0_history(rnd):
+    """C08/C07: produce with acks=0 (no decoder, nothing to wait for) whose broker send FAILS - the leader's broker died
+    or restarted elsewhere, the request is never written - then the next produce: the failed send must surface as
+    FailedPayloadsError, empty the cache, and the next call must look the leaders up again and reach the new leader"""
+    W = World(rnd, nbrokers=rnd.randint(2, 4), ntopics=rnd.randint(1, 3))
+    W.anchor = rnd.choice(sorted(W.brokers))
+    hosts = W.boot_hosts()
+    if W.brokers[W.anchor] not in hosts:
+        hosts.append(W.brokers[W.anchor])
+    ops = [{"op": "meta", "topics": [], "plan": W.plan()}]
+    keys = dedup(W.payload_keys(rnd.choice([1, 2, 3, 4]), unknown=0.0))
+
+    def produce(expect):
+        api = rnd.choice(["produce", "produce", "direct"])
+        return {"op": "send", "api": api, "group": None, "fail": rnd.random() < 0.5, "expect": expect,
+                "payloads": [list(k) for k in keys], "plan": W.plan()}
+    if rnd.random() < 0.6:
+        ops.append(produce(rnd.random() < 0.5))                    # connections to the leaders exist
+    victims = sorted(set(W.topics[t][p] for t, p in keys if W.topics[t][p] != W.anchor and W.topics[t][p] in W.brokers))
+    if victims:
+        n = rnd.choice(victims)
+        if rnd.random() < 0.5 and len(W.brokers) > 2:
+            del W.brokers[n]                                       # the broker died; leadership moves
+            for t in W.topics:
+                for p in W.topics[t]:
+                    if W.topics[t][p] == n:
+                        W.topics[t][p] = rnd.choice(sorted(W.brokers))
+        else:
+            W.readdress(n, rnd.choice(["port", "host", "both"]))   # restarted elsewhere
+            if rnd.random() < 0.5:
+                W.move_leaders()
+        ops.append({"op": "drop", "node": n})
+    else:
+        W.move_leaders()
+    ops.append(produce(False))                                     # acks=0: the send to the dead address fails unwritten
+    for _ in range(rnd.randint(1, 2)):
+        ops.append(produce(rnd.random() < 0.4))
+    return {"hosts": [list(h) for h in hosts], "form": "tuples", "universe": UNIVERSE, "seed": rnd.randint(0, 10 ** 6), "ops": ops}
+
+
 def gen_failover(rnd, attempts=None):
     """C08 recovery: an honest cluster; warm up, inject a finite sequence of faults (leader moves, broker deaths,
     restarts at new addresses, coordinator moves), then retry ONE request until it succeeds.
@@ -755,6 +795,19 @@ def all_cleared(view):
 def mon_invalidate(ob, bad):
     """C08_invalidate on one public send_*_request"""
     op, after = ob["op"], ob["after"]
+    # a failed send (a per-broker request that was never answered / never written) invalidates the whole cached routing,
+    # with a decoder or without (acks=0), through the private sender as well: the call must end in FailedPayloadsError
+    # and leave nothing cached, so that the next call looks the leaders up again
+    if op.get("op") == "send" and not after_closed(ob) and not ob["before"].get("closed"):
+        failed_reqs = [q for q in ob["pump"]["reqs"] if q["code"] != 1]
+        res0 = ob["result"]
+        if failed_reqs and res0["kind"] in ("ok", "failed"):
+            if res0["kind"] == "ok":
+                bad.append(("C08_invalidate", "a per-broker send failed, yet the call reported success (no FailedPayloadsError)",
+                            [q["node"] for q in failed_reqs], "acks=0" if not op.get("expect", True) else "acks=1"))
+            if not all_cleared(after):
+                bad.append(("C08_invalidate", "a per-broker send failed, yet cached routing survived (the next call will not re-look-up)",
+                            [q["node"] for q in failed_reqs], sorted(after["t2b"])[:4]))
     if op.get("api") in (None, "direct"):
         return
     res = ob["result"]
@@ -1314,6 +1367,8 @@ def stats(ck, hist, obs):
             ck.hist("reset_group_that_was_cached")
         if op["op"] == "coord":
             ck.hist("coord_lookup_ok" if ob["ok"] == 1 else "coord_lookup_failed")
+        if op["op"] == "send" and not op.get("expect", True) and any(q["code"] != 1 for q in ob["pump"]["reqs"]):
+            ck.hist("acks0_send_failed")
         if op["op"] == "send" and op.get("api") == "fetch":
             ck.hist("send_fetch")
         if op.get("group_form") == "bytes":
